@@ -167,9 +167,10 @@ static void transition(const Cfg &cfg, const std::vector<Call> &A, const std::ve
 // the object, a function-local static -- cannot hide).  Each history is replayed on a fresh object
 // and its LAST call is compared with a fresh object's result for the same arguments (shorter
 // histories are enumerated too, so every call of every history is checked once).
+static u64 g_deepK = 1ULL << 12;
 static std::vector<Call> big_calls()
 {
-    const u64 K = 1ULL << 12;
+    const u64 K = g_deepK;
     return {
         {M_EXT, K, 2 * K, 1, 3, 1}, {M_EXT, 2 * K, 2 * K, 1, 3, 1}, {M_EXT, K, 4 * K, 1, 2, 1}, {M_EXT, 2 * K, 4 * K, 2, 3, 2},
         {M_NTT, 2 * K, 0, 1, 3, 1}, {M_INTT, K, 0, 2, 2, 1},
@@ -213,6 +214,7 @@ int main(int argc, char **argv)
         if (cu(m, "deep", 0))
         {
             Cfg cfg{cu(m, "D"), (unsigned)cu(m, "nthreads"), 4};
+            g_deepK = cfg.D / 2;
             std::vector<Call> A = big_calls();
             std::vector<int> hist;
             for (u64 x : culist(m, "hist")) hist.push_back((int)x);
@@ -323,7 +325,9 @@ int main(int argc, char **argv)
     }
     {
         // deep part
-        Cfg cfg{1ULL << 13, 4, 4};
+        // sizes straddle the largest power-of-two-ish constant of the source in [2^11, 2^16] (default 2^13)
+        for (u64 L : culist(args.kv, "lits")) if (L > (1ULL << 13) && L <= (1ULL << 16)) { u64 p2 = 1; while (p2 < L) p2 *= 2; g_deepK = std::max(g_deepK, p2 / 2); }
+        Cfg cfg{2 * g_deepK, 4, 4};
         std::vector<Call> A = big_calls();
         int depth = th ? 5 : 4;
         std::vector<std::vector<int>> H;
